@@ -1798,6 +1798,9 @@ class Fxp():
             return out(val)
         elif out_like is not None:
             return self.__class__(val, like=out_like)
+        elif isinstance(val, (np.ndarray, np.generic)) and val.dtype == bool:
+            # truth values (comparisons, logical functions) are not fixed-point numbers: returned as they are
+            return val
         else:
             # return wrapped result
             return self.__array_wrap__(val)
